@@ -262,6 +262,24 @@ func runC04(c *core.Case) {
 		return base
 	}
 
+	if c.I >= c04Directed && r.P(0.08) {
+		// poison: a merge rejected for a malformed ID after valid eligible IDs (7 of the 8 children of a voxel that the
+		// judged list may complete); state it leaves behind must not show in the judged call
+		P := genID(r, H, H, V, V)
+		if len(ids) > 0 && r.Bool() {
+			P = ancestor(ids[0], clampI(H, 0, ids[0].H), clampI(V, 0, ids[0].V))
+		}
+		if P.H < 35 && P.V < 35 {
+			kids := ref.ChangeOne(P, P.H+1, P.V+1)
+			_, perr := integrate.MergeExtendedSpatialIds(malformedAfter(r, ref.Exts(kids[:7])), P.H, P.V)
+			c.Call()
+			if perr == nil {
+				c.Fail("merge-missing-error", nil, "a list ending in a malformed ID was accepted")
+				return
+			}
+			c.Tag("after-failed-call")
+		}
+	}
 	got, err = integrate.MergeExtendedSpatialIds(in, H, V)
 	c.Call()
 	if err != nil {
